@@ -175,9 +175,19 @@ def _flat(t: T, assume, out: List[Seg]) -> None:
             if a == b:
                 out.extend(a)
             else:
+                # factor out what both branches share:  c ? P+X+S : P+Y+S   ->   P + (c ? X : Y) + S
+                pre = 0
+                while pre < len(a) and pre < len(b) and a[pre] == b[pre]:
+                    pre += 1
+                suf = 0
+                while suf < len(a) - pre and suf < len(b) - pre and a[len(a) - 1 - suf] == b[len(b) - 1 - suf]:
+                    suf += 1
+                mid_a, mid_b = a[pre:len(a) - suf], b[pre:len(b) - suf]
                 atom, pol = norm_bool(t.a[0])
                 atom = resolve(atom, assume)
-                out.append(("alt", atom, a, b) if pol else ("alt", atom, b, a))
+                out.extend(a[:pre])
+                out.append(("alt", atom, mid_a, mid_b) if pol else ("alt", atom, mid_b, mid_a))
+                out.extend(a[len(a) - suf:] if suf else [])
             return
     if t.op == "call" and t.a[0] == T("builtin", ("str",)) and len(t.a[1]) == 1 and is_stringy(t.a[1][0]):
         _flat(t.a[1][0], assume, out)
